@@ -61,6 +61,11 @@ inductive Event where
   | dgram (d : Datagram)
   /-- `recv_from` returned `Err(io)` -/
   | ioErr
+  /-- pseudo-event put *first* on a transmission whose set-up fails before anything is received:
+  the request does not encode (`request.to_vec()?`), `NextRandomUdpSocket` gives up
+  (`.await?`), `send_to` fails or sends fewer bytes than the message has. Takes nothing from the
+  socket. -/
+  | setupFail
   deriving DecidableEq, Repr, Inhabited
 
 structure Request where
@@ -69,6 +74,11 @@ structure Request where
   questions : List Question
   /-- `request.options().case_randomization` -/
   caseRand : Bool
+  /-- a TSIG signer is configured and `should_sign_message` holds (UPDATE / NOTIFY / an AXFR or IXFR
+  question): the request goes out signed and the accepted reply is passed to `verifier.verify`.
+  Datagrams are modelled *unsigned* (the abstraction has no TSIG field; a correctly signed reply is
+  outside the model), so verification of whatever reaches it fails. -/
+  signed : Bool := false
   deriving Repr, Inhabited
 
 inductive SkipWhy where
@@ -76,7 +86,7 @@ inductive SkipWhy where
   deriving DecidableEq, Repr
 
 inductive FailWhy where
-  | io | parse | notResponse | caseMismatch
+  | io | parse | notResponse | caseMismatch | setup | tsig
   deriving DecidableEq, Repr
 
 inductive Step where
@@ -105,6 +115,8 @@ def examineD (rq : Request) (d : Datagram) : Step :=
     let questionMatches := d.questions.all (asked rq)
     if rq.caseRand && questionMatches && !(d.questions.all (askedCase rq)) then .fail .caseMismatch
     else if !questionMatches then .skip .question
+    -- `if let Some(mut verifier) = verifier { return Ok(verifier.verify(response_bytes)?) }`
+    else if rq.signed then .fail .tsig
     else .accept
 
 /-- Decidable class `C16.udp-query-ended-by-undecodable-or-nonresponse-datagram-from-queried-address`:
@@ -121,12 +133,21 @@ def endsCaseMismatch (rq : Request) (d : Datagram) : Bool :=
   sourceOk rq d && d.parses && d.isResponse && decide (rq.id = d.id) && rq.caseRand &&
     d.questions.all (asked rq) && !d.questions.all (askedCase rq)
 
-/-- a non-matching datagram that is not skipped: exactly the two classes above -/
+/-- an (unsigned) reply to a TSIG-signed query that passes every other check: `verifier.verify` fails
+and the error ends the transmission. By the property's four criteria this datagram *matches*; it is
+not one of the known-finding classes. -/
+def endsUnsigned (rq : Request) (d : Datagram) : Bool :=
+  rq.signed && sourceOk rq d && d.parses && d.isResponse && decide (rq.id = d.id) &&
+    d.questions.all (asked rq) && (!rq.caseRand || d.questions.all (askedCase rq))
+
+/-- a datagram that is neither accepted nor skipped: the two known-finding classes, or the unsigned
+reply to a signed query -/
 def endsInsteadOfSkipped (rq : Request) (d : Datagram) : Bool :=
-  endsUndecodable rq d || endsCaseMismatch rq d
+  endsUndecodable rq d || endsCaseMismatch rq d || endsUnsigned rq d
 
 def examine (rq : Request) : Event → Step
   | .ioErr => .fail .io
+  | .setupFail => .fail .setup
   | .dgram d => examineD rq d
 
 /-- How one transmission's receive loop ends. Indices are positions in the arrival list. -/
@@ -159,9 +180,21 @@ def recv (rq : Request) (es : List Event) : RecvOutcome := recvLoop rq MAX_EXAMI
 /-- number of `recv_from` results the loop took -/
 def RecvOutcome.consumed : RecvOutcome → Nat
   | .accept i => i + 1
-  | .fail i _ => i + 1
+  | .fail i w => if w = .setup then i else i + 1
   | .exceeded => MAX_EXAMINED
   | .starved c => c
+
+/-! ## socket set-up (`NextRandomUdpSocket`, udp_stream.rs; `send_to`) -/
+
+/-- `NextRandomUdpSocket::poll`: a bind failing with `AddrInUse` / `PermissionDenied` is retried while
+`attempted < ATTEMPT_RANDOM + 1`, i.e. eleven such failures are tolerated and the twelfth is returned. -/
+def BIND_RETRIES : Nat := 11
+
+/-- does the set-up of a transmission fail: `retryable` = number of consecutive `AddrInUse` /
+`PermissionDenied` results the provider gives, `fatal` = a bind error of another kind, `sendOk` =
+`send_to` succeeds and reports the full length. -/
+def setupFails (retryable : Nat) (fatal sendOk : Bool) : Bool :=
+  fatal || decide (retryable > BIND_RETRIES) || !sendOk
 
 /-! ## the query: retransmissions and the overall timeout -/
 
